@@ -205,7 +205,7 @@ def gen(rng, tier):
 
     # random percentiles / medians
     nmax = 200 if quick else 500
-    for it in range(1500 if quick else 12000):
+    for it in range(4000 if quick else 40000):
         n = rng.choice([1, 2, 3, rng.range(1, 12), rng.range(1, 60), rng.range(1, nmax)])
         kind = rng.choice(["int", "dyadic"])
         xs = values(rng, n, kind)
@@ -227,7 +227,7 @@ def gen(rng, tier):
             ops.append(f"stats pct unsorted {ty} {fl(xs)} {f2h(p)}")
 
     # histograms
-    for it in range(1200 if quick else 10000):
+    for it in range(4000 if quick else 40000):
         n = rng.choice([0, 1, 2, rng.range(1, 10), rng.range(1, 40), rng.range(1, 120 if quick else 300)])
         kind = rng.choice(["int", "dyadic"])
         xs = values(rng, n, kind)
@@ -263,7 +263,7 @@ def gen(rng, tier):
             ops.append(f"stats hist exp {fl(ys)} {f2h(base)} {f2h(eps)} {fl(queries_for(rng, pool, ys, nq))}")
 
     # store_stats
-    for it in range(150 if quick else 1500):
+    for it in range(400 if quick else 4000):
         n = rng.choice([1, 2, rng.range(1, 12), rng.range(1, 101), rng.range(1, nmax)])
         xs = values(rng, n, rng.choice(["int", "dyadic"]))
         ops.append(f"stats store {fl(xs)}")
@@ -341,20 +341,17 @@ def shrink_candidates(op):
                 continue
             e = dict(d); e[key] = c
             yield unparse(e)
-    # simpler numbers
+    # simpler numbers: halve integer-valued entries
     for key in ("vals", "queries", "args"):
         xs = d.get(key)
-        if not xs:
+        if not xs or (key == "args" and d.get("ctor") != "thr"):
             continue
         for i, x in enumerate(xs):
-            r = float(round(x))
-            if r != x and abs(r) < 1e6 and key != "args":
-                continue_ = False
-            for y in ([float(math.trunc(x / 2))] if abs(x) > 1 and x == int(x) else []):
-                e = dict(d); zs = list(xs); zs[i] = y
+            if abs(x) > 1 and x == int(x):
+                zs = list(xs); zs[i] = float(math.trunc(x / 2))
                 if d["op"] == "pct" and d.get("kind") == "sorted":
                     zs = sorted(zs)
-                e[key] = zs
+                e = dict(d); e[key] = zs
                 yield unparse(e)
 
 
